@@ -209,6 +209,19 @@ def generate(rng, tier, index):
             store[u], lab = corrupt.corrupt(rng, store[u])
             if lab:
                 labels.append(lab)
+    if mode in ("content", "mixed") and rng.random() < 0.15:
+        # a name defined as empty, then lines whose directive argument, key
+        # or section header consists of a reference to it
+        ls = store[top].split("\n")
+        ls.insert(0, rng.choice(["%define zze", "%define zze ",
+                                 "%define ZZE"]))
+        ls.insert(rng.randint(1, len(ls)), rng.choice(
+            ["%define $zze", "%define ${zze}", "%include $zze",
+             "%import $zze", "%define $zze $zze", "<$zze>", "</$zze>",
+             "$zze", "$zze v", "%$zze", "%define $zze v", "<a $zze>",
+             "%define x$zze", "%include ${ZZE}"]))
+        store[top] = "\n".join(ls)
+        labels.append("empty-reference-directive")
     if mode in ("graph", "mixed"):
         r = rng.random()
         if r < 0.35:
